@@ -225,6 +225,10 @@ class ProgGen:
     def call_text(self, scope, sd):
         args = []
         for (pn, pt) in sd['params']:
+            if pt == 'REC':
+                c = list(scope.records) + [f'{n}({self.index_expr(scope, lo, hi)})' for n, (lo, hi) in scope.recarrays.items()]
+                args.append(self.rng.choice(c) if c and self.rng.random() < 0.8 else 'shrc')
+                continue
             r = self.rng.random()
             if r < 0.5:
                 lv, _ = self.lvalue(scope, lambda x: x == pt, create=True)
@@ -418,6 +422,11 @@ class ProgGen:
         scope = Scope(name, False)
         params = []
         for i in range(self.rng.randint(0, 3)):
+            if self.have_type and 'records' in self.f and self.rng.random() < 0.25:
+                # a whole record handed over by reference
+                params.append((f'p{i}', 'REC'))
+                scope.records.append(f'p{i}')
+                continue
             ty = self.rng.choice(self.types())
             pn = f'p{i}{TC[ty]}'
             params.append((pn, ty))
@@ -446,14 +455,14 @@ class ProgGen:
         lines += [l for c in bchunks for l in c]
         if 'recursion' in self.f and params and params[0][1] in ('INTEGER', 'LONG') and self.rng.random() < 0.4:
             p0 = params[0][0]
-            args = ', '.join([f'{p0} - 1'] + ['(' + self.expr_of(scope, t, 0) + ')' for _, t in params[1:]])
+            args = ', '.join([f'{p0} - 1'] + [pn_ if t == 'REC' else '(' + self.expr_of(scope, t, 0) + ')' for pn_, t in params[1:]])
             if is_func:
                 lines.append(f'IF {p0} > 0 AND {p0} < 4 THEN {sd["name"]} = {sd["name"]}({args}) + 1')
             else:
                 lines.append(f'IF {p0} > 0 AND {p0} < 4 THEN CALL {name}({args})')
         elif is_func:
             lines.append(f'{sd["name"]} = {self.expr_of(scope, ret, 1)}')
-        ptxt = ', '.join(f'{pn}' for pn, _ in params)
+        ptxt = ', '.join(f'{pn} AS rec' if pt == 'REC' else f'{pn}' for pn, pt in params)
         head = f'{"FUNCTION" if is_func else "SUB"} {sd["name"]}' + (f'({ptxt})' if params else '') + (' STATIC' if static else '')
         text = [head] + ['  ' + l for l in lines] + [f'END {"FUNCTION" if is_func else "SUB"}']
         sd['text'] = text
@@ -467,6 +476,8 @@ class ProgGen:
             self.have_type = True
             head += ['TYPE inner', '  p AS INTEGER', '  q AS STRING', 'END TYPE'] if False else []
             head += ['TYPE rec'] + [f'  {f} AS {t}' for f, t in REC_FIELDS] + ['END TYPE']
+            if 'subs' in self.f:
+                head += ['DIM SHARED shrc AS rec']
         if 'const' in self.f:
             for i in range(rng.randint(0, 2)):
                 ty = rng.choice(['INTEGER', 'LONG'] + (['SINGLE'] if 'floats' in self.f else []))
